@@ -227,6 +227,11 @@ package httpgen
 //@   at-call UnmarshalJSON requires whole_body: arg0 == lastRetAs("ReadAll", []byte)
 //@   at-call protojson.Unmarshal requires whole_body: arg0 == lastRetAs("ReadAll", []byte)
 //@   at-call protojson.Unmarshal requires no_custom_decoder: count("UnmarshalJSON") == old(count("UnmarshalJSON"))
+// the verdict on a body that was read is the decoder's verdict: the binder itself refuses a non-empty body only when the
+// target is not a message at all - what the documented JSON form of the message is (an object, a bare array for a
+// root-unwrapped list, ...) is for the message's own decoder to say (C05/C11)
+//@   ensures decoder_decides: err != nil && lastErrNil("ReadAll") && len(lastRetAs("ReadAll", []byte)) > 0 && count("UnmarshalJSON") == old(count("UnmarshalJSON")) && count("protojson.Unmarshal") == old(count("protojson.Unmarshal")) ==> errmsg(err) == "JSON request is not a protocol buffer message"
+//@   ensures accepted_when_decoder_accepts: (count("UnmarshalJSON") > old(count("UnmarshalJSON")) && lastErrNil("UnmarshalJSON")) || (count("protojson.Unmarshal") > old(count("protojson.Unmarshal")) && lastErrNil("protojson.Unmarshal")) ==> err == nil
 
 //@ emitted func bindDataFromBinaryRequest(r *nethttp.Request, toBind any) (err error)
 //@   modifies *
